@@ -48,6 +48,8 @@ PROP = {  # commit subject prefix -> (property, what failed)
     "fix: every definition of a name gets a shadowing offset of its own": ("C09", "'def v: Int := 1 / if c then / def v: Str := \"s\" / def v: Int := 1' was refused ('expected an Int, was a Str'): the third definition got the offset v@1 that the definition inside the ended branch already had (924 sequences of the thorough scope machine for C09, 476 for C07; shortest 'DI[S]D')"),
     "fix: two arguments of one function may not have the same name": ("C02", "'def f(a: Int, a: Int)' (also 'self, self') was accepted and copied: SyntaxError duplicate argument in the emitted Python (110 single-token mutants of the repository samples in the thorough tier)"),
     "fix: two arguments of one class may not have the same name": ("C02", "'class MyType(def a a: Str)' (a duplicated token in a class argument list) was accepted: duplicate argument in the synthesised __init__ (10 single-token mutants of the samples, thorough tier)"),
+    "fix: a class that names one of its own type parameters as parent": ("C03", "'class A[T]: T / class B: A[B]' aborted the process with a stack overflow: the parent of A[B] is B, whose parent is A[B] ... (the cycle check compares declared names only; pointed out by the round-6 sub-agent for C03 and reproduced by the generic-cycles inputs of S5)"),
+    "fix: counting the reinserted constraints for the trace cannot underflow": ("C03", "'def f(t: (Int x 10)) => print(t); print(-2)' panicked with 'attempt to subtract with overflow' in reinsert (unify/link.rs): one constraint per tuple element is queued but one is counted (pointed out by the round-6 sub-agent for C03; now in S6 as a slot value)"),
     "fix: the type of a function without arguments is annotated": ("C02", "'def f(b: () -> Str)' was annotated 'Callable[, str]' with annotate on (valid/function/definition.mamba and its mutants: invalid Python under one setting only, seen by C11 as parsability-differs)"),
     "fix: a class argument that is also handed to a parent": ("C01", "'class Ch(def y: Int): Pa, Ot(y)' with a method reading self.y was accepted and failed with AttributeError: the synthesised constructor skipped 'self.y = y' for every class argument that also appears among a parent's arguments (found by the inheritance matrix: 3 parent kinds x child with a second parent)"),
     "fix: the output directory is created with its missing parents": ("C13", "'-o out/py' with a missing parent 'out' failed a valid project with 'No such file or directory (os error 2)' and no diagnostic (custom layout, 310 transitions of the thorough BFS)"),
